@@ -1,6 +1,7 @@
----------------------------- MODULE MC_ImplOrder ----------------------------
-(* Mechanism vs contract, ordering + seek + snapshot: ordered s1 and plain   *)
-(* sibling s2 on one topic, up to three messages over key K and none.        *)
+----------------------------- MODULE MC_ImplSnap -----------------------------
+(* Mechanism vs contract: ordering chain x snapshot encoding.  Ordered s1 and *)
+(* plain sibling s2 on one topic, up to three messages (key K or none), no    *)
+(* clock advance.                                                             *)
 EXTENDS BusImpl
 Cfg0 == [ttl |-> 50, mttl |-> 6, ord |-> FALSE, filt |-> NoFilter, minB |-> 2, maxB |-> 2,
          dlt |-> "", maxAtt |-> 0, push |-> "", labels |-> <<>>]
@@ -8,5 +9,5 @@ mcTopics == <<"t1">>
 mcSubs == << [name |-> "s1", topic |-> "t1", cfg |-> [Cfg0 EXCEPT !.ord = TRUE]],
              [name |-> "s2", topic |-> "t1", cfg |-> Cfg0] >>
 mcMsgKinds == { [key |-> "", attrs |-> <<>>], [key |-> "K", attrs |-> <<>>] }
-mcOps == {"Publish", "Pull", "Ack", "SeekTime", "CreateSnap", "SeekSnap", "PruneCompletedDeliveries", "Tick"}
+mcOps == {"Publish", "Pull", "Ack", "CreateSnap", "SeekSnap"}
 =============================================================================
